@@ -95,8 +95,12 @@ def gen_span_lock(repo):
     g = re.search(GUARD % 'mu_', e)
     t = re.search(r'\bhas_ended_\b', e)
     s = re.search(r'\bhas_ended_\s*=\s*true\s*;', e)
-    o = re.search(r'OnEnd\s*\(\s*std::move\s*\(\s*recordable_\s*\)\s*\)', e)
-    order = bool(g and t and s and o) and g.start() < t.start() <= s.start() < o.start() and len(re.findall(r'OnEnd\s*\(', e)) == 1
+    # ONE hand-over `OnEnd(...)` after the latch, and `recordable_` is moved out (directly into the call, or into a local that
+    # is handed over) after the latch as well - how the argument is spelled is not part of the lock discipline
+    o = re.search(r'OnEnd\s*\(', e)
+    mv = [m.start() for m in re.finditer(r'std::move\s*\(\s*recordable_\s*\)', e)]
+    order = bool(g and t and s and o and mv) and g.start() < t.start() <= s.start() < o.start() and len(re.findall(r'OnEnd\s*\(', e)) == 1 \
+        and all(s.start() < p for p in mv)
     for must in ('SetAttribute', 'AddEvent', 'SetStatus', 'UpdateName', 'End', 'IsRecording'):
         if must not in names:
             raise X.ExtractError(f'{rel}: Span::{must} does not use recordable_ / has_ended_ any more')
